@@ -203,8 +203,18 @@ def run_shard(ctx, p):
                      classes=['converter:' + conv, 'directory:holds-endless-conversion'])
             shutil.rmtree(tmp, ignore_errors=True)
             continue
+        # a quarter of the directories: the output directory's path is a string prefix of the input paths without being their
+        # ancestor (survey/ next to survey_in/), reached through a per-run link to the same input tree
+        prefix_out = rng.random() < 0.25
         for tag, mode, jobs, ds in runs:
             spec = dict(base, tag=tag, mode=mode, jobs=jobs, delay_seed=ds + 1000 * ctx.seed, dir_out=os.path.join(tmp, 'out_' + tag))
+            din = din0 = base['dir_in']
+            if prefix_out:
+                os.makedirs(os.path.join(tmp, 'r_' + tag))
+                din = os.path.join(tmp, 'r_' + tag, 'survey_in')
+                os.symlink(din0, din)
+                spec['dir_in'] = din
+                spec['dir_out'] = os.path.join(tmp, 'r_' + tag, 'survey')
             status, res, events, wall = run_child(tmp, spec)
             rec.add('batch_runs', 1)
             rec.maxi('max_batch_wall_s', round(wall, 2))
@@ -294,7 +304,7 @@ def run_shard(ctx, p):
         ndam = sum(1 for f in case['files'] if f['kind'].startswith('damaged'))
         rec.case(json.dumps([(f['name'], f['kind'], len(f['data'])) for f in case['files']]) + repr(sorted(opts.items())),
                  nvalid >= 2 and ndam >= 2 and overlapped,
-                 classes=['converter:' + conv] + sorted({'file:' + f['kind'].split(':op=')[0] for f in case['files']}) + ['placement:' + case['placement']],
+                 classes=['converter:' + conv] + sorted({'file:' + f['kind'].split(':op=')[0] for f in case['files']}) + ['placement:' + case['placement']] + (['output-path-is-a-prefix-of-the-input-paths'] if prefix_out else []),
                  sample={'converter': conv, 'files': [(f['name'], f['kind'], len(f['data'])) for f in case['files']], 'options': opts,
                          'completion_orders_seen': [list(o) for o in sorted(orders)][:3]})
         shutil.rmtree(tmp, ignore_errors=True)
